@@ -520,7 +520,7 @@ private def outV (r : Res Int) : Option (Value Int) := match r with | (.val .ok 
     (example, documented result); `5m` is 300.  (The two `in` examples are checked by the compiled model only: deep equality is not
     kernel-reducible.) -/
 def docExamples : List (Expr Int × Expr Int) := [
-  (.lnot (.str "Hello"), .bool false), (.lnot (.bool false), .bool true),
+  (.lnot (.str "Hello"), .bool false), (.lnot (.bool false), .bool true), (.bnot (.bool true), .bin .sub (.num 0) (.num 2)),
   (.bin .mul (.num 300) (.num 10), .num 3000), (.bin .div (.num 300) (.num 5), .num 60), (.bin .mod (.num 17) (.num 12), .num 5),
   (.bin .add (.num 1) (.num 3), .num 4), (.bin .add (.str "hello ") (.str "world"), .str "hello world"), (.bin .sub (.num 3) (.num 1), .num 2),
   (.bin .shl (.num 4) (.num 8), .num 1024), (.bin .shr (.num 1024) (.num 4), .num 64),
@@ -544,15 +544,13 @@ def exampleHolds (p : Expr Int × Expr Int) : Bool :=
   | some a, some b => sameScalar a b
   | _, _ => false
 
-/-- FULL statement (false on the unchanged tree): every example of the document's operator table evaluates to its documented result.
-    **Partial**: all of them except `~true (false)` do — 27 examples, evaluated by the kernel on the exact instance of the model. -/
-theorem reference_examples_hold_in_model_partial : docExamples.all exampleHolds = true := by decide
+/-- **Every example of the document's operator table evaluates to its documented result** — 28 examples, evaluated by the kernel on
+    the exact instance of the model (the two `in` examples by the compiled model on every run).  `~true (-2)` is among them since
+    86ab6e0 (finding F-C15g: the document said `~true (false)`; NegateExpression computes `~(long)1 = -2`, and so does the model). -/
+theorem reference_examples_hold_in_model : docExamples.all exampleHolds = true := by decide
 
-/-- **Counterexample** (finding F-C15g): the document says `~true (false)`; NegateExpression (expression.cpp) computes `~(long)1 = -2`,
-    and so does the faithful model. -/
-theorem reference_example_bitwise_not_counterexample :
-    (match outV (run 60 [.bnot (.bool true)]) with | some (.num n) => n == -2 | _ => false) = true ∧
-    exampleHolds (.bnot (.bool true), .bool false) = false := by decide
+/-- not vacuous: the example as the document gave it before 86ab6e0 does not hold -/
+example : exampleHolds (.bnot (.bool true), .bool false) = false ∧ docExamples.length = 28 := by decide
 
 /-- the clause accepts an example that yields its documented result and rejects one that yields another value, an error, or no pair -/
 example : Spec.checkDocExample "docex4" "v:[#40a7700000000000,#40a7700000000000]" = none := by decide
